@@ -21,7 +21,7 @@ func main() {
 	case "explore":
 		explore(os.Args[2:])
 	case "externals":
-		P, err := gosym.Load("/repo", []string{"/verif/harness"}, []string{"./homescript/..."})
+		P, err := gosym.Load(repoDir, []string{harnessDir}, []string{"./homescript/..."})
 		if err != nil {
 			fmt.Println(err)
 			os.Exit(2)
@@ -65,7 +65,7 @@ func explore(args []string) {
 		return m
 	}
 	t0 := time.Now()
-	P, err := gosym.Load("/repo", []string{"/verif/harness"}, []string{"./homescript/..."})
+	P, err := gosym.Load(repoDir, []string{harnessDir}, []string{"./homescript/..."})
 	if err != nil {
 		fmt.Println(err)
 		os.Exit(2)
